@@ -271,7 +271,9 @@ func (c *Corpus) conformModule(m *Module) []Excluded {
 		for _, w := range want {
 			e, has := assigned[w.GoName]
 			if w.Default == nil {
-				if has {
+				// a member without a declared default decodes to the zero value of its
+				// type when absent: an explicit zero assignment is as good as none
+				if has && !isZeroExpr(e) {
 					bad(u, "struct", "default:"+w.Type.Shape(), "ResetDefault assigns %s = %s although the IDL gives no default", w.GoName, exprString(e))
 					break
 				}
@@ -402,4 +404,20 @@ func ifaceMethod(it *ast.InterfaceType, name string) *ast.FuncType {
 		}
 	}
 	return nil
+}
+
+
+// isZeroExpr recognises the spellings of a zero value: 0, 0.0, false, "", nil, T{}.
+func isZeroExpr(e ast.Expr) bool {
+	switch x := e.(type) {
+	case *ast.BasicLit:
+		return x.Value == "0" || x.Value == "0.0" || x.Value == `""`
+	case *ast.Ident:
+		return x.Name == "false" || x.Name == "nil"
+	case *ast.CompositeLit:
+		return len(x.Elts) == 0
+	case *ast.ParenExpr:
+		return isZeroExpr(x.X)
+	}
+	return false
 }
